@@ -289,7 +289,7 @@ type Slots struct {
 // trace identify the exact statements executed.
 func (f *Family) Assign(body []Stmt, prefix string) Slots {
 	var sl Slots
-	nc, nl, nf, nv := 0, 0, 0, 0
+	nc, nl, nf, nv, nj := 0, 0, 0, 0, 0
 	leaf := func() *Cond {
 		nf++
 		return &Cond{Kind: CLeaf, Leaf: MakeLeaf(f.LeafStyle, nf)}
@@ -304,6 +304,11 @@ func (f *Family) Assign(body []Stmt, prefix string) Slots {
 			s.Name = fmt.Sprintf("%sL%d", prefix, nl)
 			sl.Labels = append(sl.Labels, s.Name)
 		case SGoto:
+			sl.Gotos = append(sl.Gotos, s)
+		case SGotoIf:
+			nj++
+			s.Flag = fmt.Sprintf("%sJ%d", prefix, nj)
+			s.WantSet = nj%2 == 1
 			sl.Gotos = append(sl.Gotos, s)
 		case SIf:
 			for i := range s.Arms {
